@@ -251,6 +251,17 @@ func c13Options(o int) []func(*rux.Router) {
 func c13Noop(*rux.Context) {}
 
 // lookups on an accepted definition must not panic
+// c13AfterReject: lookups on a router on which the registration of `what` has just been rejected by a panic
+func c13AfterReject(r *rux.Router, paths []string, what string, st *fw.Stats, add func(sig, msg string)) {
+	for _, p := range paths {
+		st.Evals++
+		if pv := try(func() { r.Match("GET", p) }); pv != nil {
+			add("lookup:panic:after-rejected-definition", fmt.Sprintf("%s was rejected by registration (the panic was recovered); the router, which holds accepted definitions only, then panicked in Match(GET,%q): %v", what, p, pv))
+			return
+		}
+	}
+}
+
 func c13LightLookups(r *rux.Router, what string, st *fw.Stats, add func(sig, msg string)) {
 	for _, p := range c13ShortPaths[:31] {
 		st.Evals++
@@ -421,6 +432,28 @@ func c13Run(c c13Case, st *fw.Stats) []fw.Viol {
 			if pv := try(func() { r.WithOptions(rux.StrictLastSlash) }); pv == nil {
 				add("options:accepted-after-route", fmt.Sprintf("WithOptions after GET(%q) was accepted", p))
 			}
+			// every option on its own, and every ordered pair of options (the first one of a list decides)
+			late := []struct {
+				name string
+				opt  func(*rux.Router)
+			}{{"InterceptAll(/x)", rux.InterceptAll("/x")}, {"MaxNumCaches(8)", rux.MaxNumCaches(8)}, {"CachingWithNum(8)", rux.CachingWithNum(8)}, {"UseEncodedPath", rux.UseEncodedPath},
+				{"EnableCaching", rux.EnableCaching}, {"StrictLastSlash", rux.StrictLastSlash}, {"HandleFallbackRoute", rux.HandleFallbackRoute}, {"HandleMethodNotAllowed", rux.HandleMethodNotAllowed}}
+			for i, a := range late {
+				st.Evals++
+				r := rux.New(opts...)
+				r.GET(p, c13Noop)
+				if pv := try(func() { r.WithOptions(a.opt) }); pv == nil {
+					add("options:accepted-after-route", fmt.Sprintf("router (options mask %d) with GET(%q): WithOptions(%s) afterwards was accepted", c.Opts, p, a.name))
+				}
+				b := late[(i+3)%len(late)]
+				r = rux.New(opts...)
+				r.GET(p, c13Noop)
+				if pv := try(func() { r.WithOptions(a.opt, b.opt) }); pv == nil {
+					add("options:accepted-after-route", fmt.Sprintf("router (options mask %d) with GET(%q): WithOptions(%s, %s) afterwards was accepted", c.Opts, p, a.name, b.name))
+				}
+				// no options at all is not a change
+				_ = try(func() { r.WithOptions() })
+			}
 		}
 		// an option function applied DIRECTLY (not through WithOptions) after routes exist: the call may be rejected, but
 		// if it is not, the definitions accepted earlier must still be matched without a panic
@@ -561,6 +594,10 @@ func c13Run(c c13Case, st *fw.Stats) []fw.Viol {
 				add(sig, what+": invalid by construction but registration accepted it")
 				// still: lookups must not panic
 				c13Lookups(r, c.Paths, what, st, add)
+			} else if r != nil {
+				// the rejected definition must not have left anything behind: the router (whose only accepted routes are
+				// the ones registered before the rejection, if any) is used on
+				c13AfterReject(r, append(append([]string{}, c.Paths...), c13ShortPaths[:31]...), what, st, add)
 			}
 			return viols
 		}
@@ -649,6 +686,9 @@ func c13Run(c c13Case, st *fw.Stats) []fw.Viol {
 				}
 			} else {
 				st.Inc("raw_rejected", 1)
+				if r != nil {
+					c13AfterReject(r, c13ShortPaths[:31], fmt.Sprintf("raw pattern %q", cur), st, add)
+				}
 			}
 			if n == c.Len {
 				return
@@ -681,8 +721,8 @@ func c13Run(c c13Case, st *fw.Stats) []fw.Viol {
 var c13Spec = fw.Spec[c13Case]{
 	ID:    "C13",
 	Level: "model_checking",
-	Rule: "complete enumeration per category: (rejection) all method-name strings of <=4 letters over {G,E,T,D,L,P,U,S,H,A,space,comma} plus every prefix/suffix/case/concatenation variant of the 9 names, as single and mixed lists; method lists of every length 1..12 with one of 4 unsupported names at every position (and at all positions); handler counts 0..70 (and 27 counts up to 1000 around powers of two) through Route.Use, variadic middleware, Any(), group middleware and mixed; nil handler; options after routes; 13 accepted method sets (one name, several, Any, all but each one) on 4 route shapes x 32 option masks looked up with 22 method strings x 8 paths; structured variable regexes with a capturing group at every position (and escaped / non-capturing controls), optional parts not at the end, uncompilable regexes - each also as the prefix of a group / controller whose route has a plain path; " +
-		"(totality) ALL pattern strings of <=5 (thorough 6) tokens over 15 tokens: every one registration accepts is matched against 156 short paths + 16 special paths x 7 method strings through Match and ServeHTTP, on a default router and with all options on; non-trivial = an invalid-by-construction definition, or an accepted dynamic raw pattern",
+	Rule: "complete enumeration per category: (rejection) all method-name strings of <=4 letters over {G,E,T,D,L,P,U,S,H,A,space,comma} plus every prefix/suffix/case/concatenation variant of the 9 names, as single and mixed lists; method lists of every length 1..12 with one of 4 unsupported names at every position (and at all positions); handler counts 0..70 (and 27 counts up to 1000 around powers of two) through Route.Use, variadic middleware, Any(), group middleware and mixed; nil handler; each of the 8 options (alone and first of a pair) applied through WithOptions after a route exists; 13 accepted method sets (one name, several, Any, all but each one) on 4 route shapes x 32 option masks looked up with 22 method strings x 8 paths; structured variable regexes with a capturing group at every position (and escaped / non-capturing controls), optional parts not at the end, uncompilable regexes - each also as the prefix of a group / controller whose route has a plain path; " +
+		"(totality) after every rejected definition the same router is looked up again (a rejected definition leaves nothing behind); ALL pattern strings of <=5 (thorough 6) tokens over 15 tokens: every one registration accepts is matched against 156 short paths + 16 special paths x 7 method strings through Match and ServeHTTP, on a default router and with all options on; non-trivial = an invalid-by-construction definition, or an accepted dynamic raw pattern",
 	Assume: []string{"invalid definitions are built by injecting one listed fault into a valid definition; raw token strings are never classified, only checked for lookup totality"},
 	Bounds: func(tier string) map[string]any {
 		L := 5
